@@ -56,6 +56,9 @@ thread_local! {
     /// panic at the k-th user callback (Clone / cmp / hash / fmt) from now; 0 = never
     static PANIC_AT: Cell<i64> = const { Cell::new(0) };
     static CALLBACKS: Cell<u64> = const { Cell::new(0) };
+    /// panic inside the k-th payload destructor from now (after the destruction was recorded); 0 = never
+    static DROP_PANIC_AT: Cell<i64> = const { Cell::new(0) };
+    static DROP_PANICS_FIRED: Cell<u64> = const { Cell::new(0) };
 }
 
 pub const NONE: u32 = u32::MAX;
@@ -72,6 +75,36 @@ pub fn reset() {
     });
     PANIC_AT.with(|p| p.set(0));
     CALLBACKS.with(|c| c.set(0));
+    DROP_PANIC_AT.with(|p| p.set(0));
+    DROP_PANICS_FIRED.with(|p| p.set(0));
+}
+
+/// Arm a panic inside the k-th (1-based) destructor of an identity-tracked payload on this thread; 0 disarms.
+/// The destructor records the destruction first, so "destroyed exactly once" stays decidable; it never
+/// fires while the thread is already unwinding (a second panic would abort the process).
+pub fn drop_panic_at(k: i64) {
+    DROP_PANIC_AT.with(|p| p.set(k));
+}
+pub fn drop_panics_fired() -> u64 {
+    DROP_PANICS_FIRED.with(|p| p.get())
+}
+fn drop_point() {
+    if std::thread::panicking() {
+        return;
+    }
+    let fire = DROP_PANIC_AT.with(|p| {
+        let v = p.get();
+        if v > 0 {
+            p.set(v - 1);
+            v == 1
+        } else {
+            false
+        }
+    });
+    if fire {
+        DROP_PANICS_FIRED.with(|p| p.set(p.get() + 1));
+        std::panic::panic_any(Injected);
+    }
 }
 
 pub fn info(id: u32) -> Option<TokInfo> {
@@ -376,6 +409,7 @@ impl<A: Al, const TAG: u8> Drop for Tok<A, TAG> {
         if let Err(m) = r {
             viol::report(&["C01", "C06", "C07", "C09", "C02", "C15"], "L.double-drop", m);
         }
+        drop_point();
     }
 }
 
@@ -421,6 +455,7 @@ impl<A: Al, const TAG: u8> fmt::Debug for Tok<A, TAG> {
 }
 impl<A: Al, const TAG: u8> Default for Tok<A, TAG> {
     fn default() -> Self {
+        callback_point("default");
         Self::new(0)
     }
 }
@@ -440,6 +475,7 @@ impl<const Z: usize> TokZ<Z> {
 }
 impl<const Z: usize> Default for TokZ<Z> {
     fn default() -> Self {
+        callback_point("default");
         Self::new()
     }
 }
@@ -457,6 +493,7 @@ impl<const Z: usize> Drop for TokZ<Z> {
             r.z_live[Z] -= 1;
             r.z_dropped[Z] += 1;
         });
+        drop_point();
     }
 }
 
